@@ -112,7 +112,9 @@ impl Scheduler for PlanScheduler {
       let mut rec = out.lock().unwrap();
       let step = rec.steps;
       rec.steps += 1;
-      let ids: Vec<u32> = runnable.iter().map(|t| usize::from(t.id()) as u32).collect();
+      // tasks blocked in `park` are offered for *spurious* wake-ups; never take that offer: it only
+      // makes the waiter re-check and park again, and an unfair mode could spin on it forever
+      let ids: Vec<u32> = runnable.iter().filter(|t| t.runnable()).map(|t| usize::from(t.id()) as u32).collect();
       let cur = current.map(|c| usize::from(c) as u32);
       let cur_runnable = cur.map_or(false, |c| ids.contains(&c));
       // default policy
